@@ -1,1 +1,140 @@
+import DK.Props.Defs
+import DK.Lemmas.Calc
 import DK.Lemmas.Bridge
+/-!
+# C01 — the reported marginal cost is the exact gradient of the cost
+
+`IsGradAt n f g s`: along *every* direction `d`, the derivative of `τ ↦ f (s + τ·d)` at `τ = 0` is
+`Σ_{k<n} g k · d k`.  This is the Gateaux-derivative form of "g is the gradient of f at s"; the
+`i`-th partial derivative is the case `d = e_i` (`partial_of_isGradAt`).
+-/
+namespace DK.C01
+open DK
+
+/-- the `i`-th partial derivative (all other coordinates frozen) is `g i`. -/
+theorem partial_of_isGradAt {n : ℕ} {f : (ℕ → ℝ) → ℝ} {g s : ℕ → ℝ} (h : IsGradAt n f g s)
+    {i : ℕ} (hi : i < n) : HasDerivAt (fun x => f (Function.update s i x)) (g i) (s i) := by
+  have h0 := h (fun k => if k = i then 1 else 0)
+  have hsum : sumTo n (fun k => g k * (if k = i then (1:ℝ) else 0)) = g i := by
+    rw [← sumTo_single n i hi g]
+    exact sumTo_congr (fun k _ => by split_ifs <;> simp)
+  rw [hsum] at h0
+  have hshift : HasDerivAt (fun x : ℝ => x - s i) 1 (s i) := (hasDerivAt_id (s i)).sub_const (s i)
+  have h1 := h0.comp_of_eq (s i) hshift (by simp)
+  have hfun : ((fun τ => f (line s (fun k => if k = i then 1 else 0) τ)) ∘ fun x => x - s i)
+      = fun x => f (Function.update s i x) := by
+    funext x
+    simp only [Function.comp]
+    congr 1
+    funext k
+    by_cases hk : k = i
+    · subst hk; simp [line]
+    · simp [line, hk]
+  rw [hfun, mul_one] at h1
+  exact h1
+
+/-! ## per class -/
+theorem device_grad (n : ℕ) (s p : ℕ → ℝ) :
+    IsGradAt n (fun x => deviceCost n x p) (deviceDeriv p) s := by
+  unfold deviceCost
+  exact priceTerm_isGradAt n s p
+
+/-- non-vacuity of `partial_of_isGradAt`: its hypotheses hold for the plain device, slot 1 of 2. -/
+example (s p : ℕ → ℝ) :
+    HasDerivAt (fun x => deviceCost 2 (Function.update s 1 x) p) (p 1) (s 1) :=
+  partial_of_isGradAt (device_grad 2 s p) (by norm_num : 1 < 2)
+
+theorem cdevice_grad (n : ℕ) (a b : ℝ) (s p : ℕ → ℝ) :
+    IsGradAt n (fun x => cdevCost n a b x p) (cdevDeriv a p) s := by
+  unfold cdevCost
+  have h1 : IsGradAt n (fun x => a * sumTo n x + b) (fun _ => a) s := by
+    refine (isGradAt_comp_sumTo n (fun y => a * y + b) a s ?_)
+    simpa using ((hasDerivAt_id (sumTo n s)).const_mul a).add_const b
+  exact (h1.add (priceTerm_isGradAt n s p)).congr_grad (fun k _ => rfl)
+
+/-- no hypothesis at all: zero-width slots, any `p_l p_h`, any flow (in or out of bounds). -/
+theorem idevice2_grad (n : ℕ) (pl ph lb hb s p : ℕ → ℝ) :
+    IsGradAt n (fun x => idev2Cost n pl ph lb hb x p) (idev2Deriv pl ph lb hb s p) s := by
+  unfold idev2Cost
+  have h1 := isGradAt_sumTo n (fun k y => hlqCost (pl k) (ph k) (lb k) (hb k) y)
+    (fun k => hlqDeriv (pl k) (ph k) (lb k) (hb k) (s k)) s
+    (fun k _ => hlqCost_hasDerivAt (pl k) (ph k) (lb k) (hb k) (s k))
+  exact (h1.add (priceTerm_isGradAt n s p)).congr_grad (fun k _ => rfl)
+
+/-- real exponents (`Real.rpow`); away from the kink `q = 0` of a non-integer power. -/
+theorem idevice_grad (n : ℕ) (a b c lb hb s p : ℕ → ℝ)
+    (hq : ∀ k < n, lb k = hb k ∨ 0 < abcQ (s k) (lb k) (hb k) (a k)) :
+    IsGradAt n (fun x => idevCost Real.rpow n a b c lb hb x p) (idevDeriv Real.rpow id a b c lb hb s p) s := by
+  unfold idevCost
+  have h1 := isGradAt_sumTo n (fun k y => abcCost Real.rpow y (a k) (b k) (c k) (lb k) (hb k))
+    (fun k => abcDeriv Real.rpow id (s k) (a k) (b k) (c k) (lb k) (hb k)) s
+    (fun k hk => abcCost_rpow_hasDerivAt (s k) (a k) (b k) (c k) (lb k) (hb k) (hq k hk))
+  exact (h1.add (priceTerm_isGradAt n s p)).congr_grad (fun k _ => rfl)
+
+/-- non-vacuity of `idevice_grad`: a non-integer exponent at an interior point (`q = 3/4 > 0`). -/
+example : ∀ k < 3, (fun _ => (0:ℝ)) k = (fun _ => (2:ℝ)) k ∨
+    0 < abcQ ((fun _ => (1:ℝ)) k) ((fun _ => (0:ℝ)) k) ((fun _ => (2:ℝ)) k) ((fun _ => (1/2:ℝ)) k) := by
+  intro k _
+  right
+  unfold abcQ abcS
+  norm_num
+
+/-- integer exponents `b ≥ 1` as the executable model runs them (`ipow`): no positivity needed. -/
+theorem idevice_grad_int (n : ℕ) (a : ℕ → ℝ) (b : ℕ → ℤ) (c lb hb s p : ℕ → ℝ) (hb1 : ∀ k < n, 1 ≤ b k) :
+    IsGradAt n (fun x => idevCost ipow n a b c lb hb x p) (idevDeriv ipow intCast' a b c lb hb s p) s := by
+  unfold idevCost
+  have h1 := isGradAt_sumTo n (fun k y => abcCost ipow y (a k) (b k) (c k) (lb k) (hb k))
+    (fun k => abcDeriv ipow intCast' (s k) (a k) (b k) (c k) (lb k) (hb k)) s
+    (fun k hk => abcCost_ipow_hasDerivAt (s k) (a k) (b k) (c k) (lb k) (hb k) (hb1 k hk))
+  exact (h1.add (priceTerm_isGradAt n s p)).congr_grad (fun k _ => rfl)
+
+/-- non-vacuity of `idevice_grad_int`: the quadratic exponent the thermal device uses. -/
+example : ∀ k < 3, 1 ≤ (fun _ => (2:ℤ)) k := by intro k _; norm_num
+
+theorem gdevice_grad (n : ℕ) (cs : ℕ → List ℝ) (s p : ℕ → ℝ) :
+    IsGradAt n (fun x => gdevCost n cs x p) (gdevDeriv cs s p) s := by
+  unfold gdevCost
+  refine (isGradAt_sumTo n (fun k y => y * p k + polyEval (cs k) (-y)) (gdevDeriv cs s p) s ?_)
+  intro k _
+  have hneg : HasDerivAt (fun y : ℝ => -y) (-1) (s k) := (hasDerivAt_id (s k)).neg
+  have hpoly := (polyEval_hasDerivAt (cs k) (-(s k))).comp (s k) hneg
+  have h2 := ((hasDerivAt_id (s k)).mul_const (p k)).add hpoly
+  refine HasDerivAt.congr_deriv h2 ?_
+  unfold gdevDeriv
+  ring
+
+/-- the general branch of `cdev2Fn` / `cdev2Slope` (a fold over the per-range terms), for any list. -/
+theorem cdev2_fold_grad (n : ℕ) (pl ph : ℝ) (cs : List (CBound ℝ)) (hcb : ∀ c ∈ cs, c.e ≤ n) (s : ℕ → ℝ) :
+    IsGradAt n
+      (fun x => (cs.map (fun c => hlqCost pl ph c.l c.h (sumRange c.s c.e x))).foldl (· + ·) 0)
+      (fun i => (cs.map (fun c => if c.s ≤ i ∧ i < c.e then
+        hlqDeriv pl ph c.l c.h (sumRange c.s c.e s) else 0)).foldl (· + ·) 0) s := by
+  simp only [foldl_add_eq_sum, zero_add]
+  induction cs with
+  | nil => simpa using isGradAt_const n 0 s
+  | cons c cs ih =>
+    simp only [List.map_cons, List.sum_cons]
+    have hc := isGradAt_comp_sumRange n c.s c.e (hcb c (List.mem_cons_self ..))
+      (fun y => hlqCost pl ph c.l c.h y) (hlqDeriv pl ph c.l c.h (sumRange c.s c.e s)) s
+      (hlqCost_hasDerivAt pl ph c.l c.h (sumRange c.s c.e s))
+    exact hc.add (ih (fun c' hc' => hcb c' (List.mem_cons_of_mem _ hc')))
+
+/-- any list of cumulative ranges inside the horizon (contiguous, overlapping, single, none). -/
+theorem cdevice2_grad (n : ℕ) (pl ph : ℝ) (cbs : List (CBound ℝ)) (hcb : ∀ c ∈ cbs, c.e ≤ n) (s p : ℕ → ℝ) :
+    IsGradAt n (fun x => cdev2Cost n pl ph cbs x p) (cdev2Deriv n pl ph cbs s p) s := by
+  unfold cdev2Cost
+  have hfn : IsGradAt n (fun x => cdev2Fn n pl ph cbs x) (cdev2Slope n pl ph cbs s) s := by
+    rcases cbs with _ | ⟨c, _ | ⟨c', cs⟩⟩
+    · exact cdev2_fold_grad n pl ph [] hcb s
+    · exact isGradAt_comp_sumTo n (fun y => hlqCost pl ph c.l c.h y) _ s
+        (hlqCost_hasDerivAt pl ph c.l c.h (sumTo n s))
+    · exact cdev2_fold_grad n pl ph (c :: c' :: cs) hcb s
+  exact (hfn.add (priceTerm_isGradAt n s p)).congr_grad (fun k _ => rfl)
+
+/-- non-vacuity of `cdevice2_grad`: two overlapping ranges inside a horizon of 4. -/
+example : ∀ c ∈ [(⟨0, 1, 0, 3⟩ : CBound ℝ), ⟨0, 2, 1, 4⟩], c.e ≤ 4 := by
+  intro c hc
+  simp only [List.mem_cons, List.not_mem_nil, or_false] at hc
+  rcases hc with rfl | rfl <;> norm_num
+
+end DK.C01
